@@ -54,6 +54,8 @@ func (e *Engine) defaultMode(fn *ssa.Function) Mode {
 
 func pathMode(p string) Mode {
 	switch {
+	case p == repoMod+"/store/cachekv":
+		return ValueMode // keys and values are byte strings (no aliasing questions); the cache is a Go map
 	case p == repoMod+"/types", strings.HasPrefix(p, repoMod+"/store"), p == repoMod+"/x/pos/types", p == repoMod+"/crypto":
 		return HeapMode
 	}
@@ -217,10 +219,30 @@ func (vc *VC) resolveTargets(e *Expr, env *SpecEnv) []target {
 		}
 		return out
 	}
+	if e.Op == "call" {
+		if fn, ok := dottedName(e.Args[0]); ok && fn == "elems" && len(e.Args) == 2 {
+			if m := vc.evalSpec(e.Args[1], env); m.typ != nil {
+				if mt, ok := m.typ.Underlying().(*types.Map); ok {
+					// elems(m) for a Go map: its entries (values and presence)
+					hv, hp, _, _ := vc.mapHeaps(mt)
+					return []target{{heap: hv, key: m.t, field: -1}, {heap: hp, key: m.t, field: -1}}
+				}
+			}
+		}
+	}
 	if tg, ok := vc.resolveTarget(e, env); ok {
 		return []target{tg}
 	}
 	return nil
+}
+
+// isLibState: the heap holds library-private state (declared by `//@ library_state` in the package's contract
+// file): no contract constrains it, no frame is demanded for it, every call havocs it.
+func (vc *VC) isLibState(heap string) bool {
+	if vc.fn == nil || vc.fn.Pkg == nil {
+		return false
+	}
+	return vc.eng.libState[vc.fn.Pkg.Pkg.Path()][heap]
 }
 
 func (fr *frame) havocTarget(e *Expr, env *SpecEnv, cur *State) {
@@ -260,6 +282,7 @@ func (e *Engine) verifyFunc(fn *ssa.Function, con *Contract) *VC {
 	var heapSorts map[string]string
 	var heapElems map[string]types.Type
 	var heapRowsM map[string]bool
+	var heapMapKeys map[string]string
 	var ghostSet map[string]bool
 	nloops := len(loopOrdinals(fn))
 	passes := 1
@@ -289,6 +312,12 @@ func (e *Engine) verifyFunc(fn *ssa.Function, con *Contract) *VC {
 			vc.heapSort[k] = heapSorts[k]
 			vc.heapElem[k] = heapElems[k]
 			vc.heapRows[k] = heapRowsM[k]
+			if ks, ok := heapMapKeys[k]; ok {
+				if vc.heapMapKey == nil {
+					vc.heapMapKey = map[string]string{}
+				}
+				vc.heapMapKey[k] = ks
+			}
 			vc.decl(k+"@0", heapSorts[k])
 			vc.preHeaps = append(vc.preHeaps, k)
 		}
@@ -306,6 +335,7 @@ func (e *Engine) verifyFunc(fn *ssa.Function, con *Contract) *VC {
 			heapSorts = vc.heapSort
 			heapElems = vc.heapElem
 			heapRowsM = vc.heapRows
+			heapMapKeys = vc.heapMapKey
 			ghostSet = vc.ghost
 		}
 	}
@@ -586,7 +616,7 @@ func (vc *VC) frameObligations(ret int, r retSite, entryEnv *SpecEnv) {
 	sort.Strings(names)
 	for _, k := range names {
 		final := vc.heapGet(r.st, k)
-		if final == k+"@0" {
+		if final == k+"@0" || k == "Hrng" || vc.isLibState(k) { // Hrng: positions of this function's own map iterators
 			continue
 		}
 		whole := false
